@@ -547,7 +547,7 @@ func c04histChild(raw json.RawMessage, scratch string) {
 	}
 	for i := a.Start; i < a.End; i++ {
 		rng := base.At(uint64(i))
-		c := &c04case{Index: i, Cfg: cfg, N: rng.Pick(20, 60, 150), Plan: rng.PickS("all", "per-command", "gaps", "gaps", "split-bytes"), StartOffset: int64(rng.Pick(0, 1, 5000, 1<<31-3, 1<<40))}
+		c := &c04case{Index: i, Cfg: cfg, N: rng.Pick(20, 60, 150), Plan: rng.PickS("all", "per-command", "gaps", "gaps", "split-bytes"), StartOffset: int64(rng.Pick(0, 1, 5000, 1<<31-3, 1<<32-300, 1<<40))}
 		c.DBs = [][]int{{0}, {0, 1}, {0, 1, 2, 3}, {2, 0}}[rng.Intn(4)]
 		if c.Plan == "gaps" {
 			c.GapMs = 480 + 5*rng.Intn(9)
